@@ -951,7 +951,9 @@ def run(ctx):
                    "byte flip/deletion/insertion, plus pure garbage; destination given as dir, dir/, absolute, "
                    "subdir, existing file, missing name; -p/-y/umask/socket-or-pipes varied; about 10% of the cases run "
                    "the receiver under a file size limit (write faults in the middle of multi-block files, followed by "
-                   "files that fit); jail around the "
+                   "files that fit); symbolic links that already exist inside the destination (to a directory, a file, "
+                   "nothing, an ancestor; relative and absolute) met by plain received names; a fixed systematic part in every "
+                   "run (see `systematic`); jail around the "
                    "destination holds victim files/dirs.  non-trivial = the stream starts with >= 1 syntactically "
                    "valid control record; distinct = distinct (stream, dest, options)"}
     dist = {"reply_classes": {}, "escapes": 0, "malformed": 0, "crash": 0, "model_mismatch": 0}
@@ -995,7 +997,10 @@ def run(ctx):
     cov["traces_validated_against_impl"] = cov["evaluations"]
     return ctx.finish(
         LEVEL, cov,
-        assumptions=["no symbolic links below or around the destination (C12 reading, DESIGN section 6)",
+        assumptions=["symbolic links: those that already exist INSIDE the destination are part of the check (pinned cases; the "
+                     "receiver as found follows them: finding F12-SYMLINK-FOLLOW; model by translation, Pcp/Links.lean, for "
+                     "links to existing files/directories outside the destination; dangling links and links to an ancestor of "
+                     "the destination: oracle only); the destination the user gives is itself not a link",
                      "the receiver runs as root: permission checks never fail; I/O errors only as injected write faults "
                      "(RLIMIT_FSIZE with SIGXFSZ ignored: short write / EFBIG, ftruncate EFBIG)",
                      "Linux path resolution, mkdir/open(O_CREAT)/chmod/utimes/ftruncate semantics as in Pcp/FS.lean",
